@@ -191,8 +191,12 @@ func playEndings() []*scenario {
 			variants = fakecam.GarbageVariants
 		}
 		for v := 0; v < variants; v++ {
+			stalls := end == fakecam.AfterSilence || (end == fakecam.AfterGarbage && v == 3)
 			for cons := 0; cons <= 2; cons++ {
 				for _, initial := range []int{0, 5} {
+					if stalls && !evid.Thorough() && (cons == 0) != (initial == 0) {
+						continue // endings that wait for the server's timeout: half of the grid in the quick tier
+					}
 					sc := &scenario{Audio: cons != 1, Creds: "right", User: "admin", Pass: "pw", Initial: initial, Consumers: cons, Live: 6,
 						End: int(end), EndVariant: v, Mode: "direct", FollowUp: true, CacheGop: initial == 0, Paced: cons == 2 && initial == 5, SessionTimeout: cons == 1}
 					sc.Name = fmt.Sprintf("play ends by %s/%d with %d consumers", end, v, cons)
@@ -202,6 +206,9 @@ func playEndings() []*scenario {
 			if end != fakecam.Continue {
 				// the end comes right behind the PLAY answer / the first frames, racing the start of the play loop
 				for _, initial := range []int{0, 2} {
+					if stalls && !evid.Thorough() && initial == 2 {
+						continue
+					}
 					sc := &scenario{Audio: true, Creds: "right", User: "admin", Pass: "pw", Initial: initial, End: int(end), EndVariant: v, AutoFinish: true, Mode: "direct", FollowUp: true}
 					sc.Name = fmt.Sprintf("play ends by %s/%d at once", end, v)
 					out = append(out, sc)
